@@ -251,7 +251,7 @@ Definition check_outcome (tr : list tentry) (o : outcome) : list lclause :=
   | Some m => match o with Returned_err m' => if N.eqb m m' then [] else [L_C20_stops] | _ => [L_C20_stops] end
   | None =>
     if existsb (fun e => is_end (te_resp e)) tr
-    then match o with Returned_ok => [] | _ => [L_C10_end] end
+    then match o with Returned_ok | Returned_err _ => [] | _ => [L_C10_end] end   (* it stops: WHAT it returns after End is not C10's *)
     else []
   end.
 
